@@ -101,7 +101,10 @@ static TOTAL_CHECKED_FREES: AtomicUsize = AtomicUsize::new(0);
 
 struct Guard;
 fn lock() -> Guard {
-    while LOCK.compare_exchange_weak(false, true, Acquire, Relaxed).is_err() {
+    while LOCK
+        .compare_exchange_weak(false, true, Acquire, Relaxed)
+        .is_err()
+    {
         std::hint::spin_loop();
     }
     Guard
@@ -226,7 +229,10 @@ impl State {
                 e.state = 3;
             }
         }
-        System.dealloc(addr as *mut u8, Layout::from_size_align_unchecked(size, align));
+        System.dealloc(
+            addr as *mut u8,
+            Layout::from_size_align_unchecked(size, align),
+        );
     }
 }
 
